@@ -97,10 +97,13 @@ impl crate::anycache::AssetMap for AssetMap {
         unsafe { Some(entry.inner().extend_lifetime()) }
     }
 
-    fn insert(&self, entry: CacheEntry) -> &UntypedHandle {
+    fn insert(&self, entry: CacheEntry, on_insert: impl FnOnce()) -> &UntypedHandle {
         let key = OwnedKey::new_with(entry.id().clone(), entry.type_id());
         let shard = &mut *self.get_shard(key.borrow()).0.write();
-        let entry = shard.entry(key).or_insert(entry);
+        let entry = shard.entry(key).or_insert_with(|| {
+            on_insert();
+            entry
+        });
         unsafe { entry.inner().extend_lifetime() }
     }
 
